@@ -8,6 +8,7 @@ value table, which lets the executor decide byte predicates without the solver
 everything else is translated to z3 on demand (see solver.py).
 """
 
+HARDOPS = frozenset(('mul', 'mulhi', 'udiv', 'urem', 'sdiv', 'srem'))
 MASK = {w: (1 << w) - 1 for w in (1, 8, 16, 32, 64, 128)}
 
 
@@ -35,7 +36,7 @@ class Var:
 
 
 class Term:
-    __slots__ = ('op', 'args', 'w', 'vars', 'tab', 'z3', 'id', 'lia', 'msk')
+    __slots__ = ('op', 'args', 'w', 'vars', 'tab', 'z3', 'id', 'lia', 'msk', 'hard')
 
     def __repr__(self):
         return 'T%d:%s/%d' % (self.id, self.op, self.w)
@@ -92,6 +93,7 @@ class TermStore:
         t.z3 = None
         t.lia = None
         t.msk = None
+        t.hard = None
         t.id = self.nterms
         self.nterms += 1
         self.table[key] = t
@@ -108,7 +110,23 @@ class TermStore:
                 allc = False
         if allc:
             return evalop(op, w, args, self)
+        if op == 'mul':
+            # multiplication by a power of two is a shift (keeps the term out of the
+            # integer-arithmetic fallback and cheap for bit-blasting)
+            x, y = args
+            if x.__class__ is not Term:
+                x, y = y, x
+            if y.__class__ is not Term and y > 0 and (y & (y - 1)) == 0:
+                return self.mk('shl', w, x, y.bit_length() - 1)
         t = self._mk(op, w, args, vs)
+        if t.hard is None:
+            h = (op in HARDOPS and w >= 32)
+            if not h:
+                for a in args:
+                    if a.__class__ is Term and a.hard:
+                        h = True
+                        break
+            t.hard = h
         if t.tab is None and vs and (vs & (vs - 1)) == 0:
             v = self.vars[vs.bit_length() - 1]
             if v.kind == 'byte':
